@@ -101,7 +101,13 @@ func (c43Engine) Generate(seed uint64, tier string) *simrun.Case {
 				c.Ops = append(c.Ops, simrun.Op{K: "tx", A: []int64{u, d, t, int64(r.Intn(6))}})
 			} else {
 				// variant: 0 plain; 1 abstract row-set form (rowsAbstract.go); 2 (put only) upsert keyed on id
-				c.Ops = append(c.Ops, simrun.Op{K: []string{"get", "put", "patch", "del"}[r.Intn(4)], A: []int64{u, d, t, int64(r.Intn(3))}})
+				// 5th argument 1: the request also carries ?user=<the other ordinary user> (a declared query parameter
+				// of the rows routes); the caller's own grants must still be what decides
+				other := int64(0)
+				if r.Chance(1, 4) {
+					other = 1
+				}
+				c.Ops = append(c.Ops, simrun.Op{K: []string{"get", "put", "patch", "del"}[r.Intn(4)], A: []int64{u, d, t, int64(r.Intn(3)), other}})
 			}
 		case x < 88:
 			if r.Chance(1, 2) {
@@ -215,7 +221,15 @@ func (c43Engine) Execute(t *testing.T, c *simrun.Case, keepLog bool) *simrun.Out
 		}
 		rt := router.NewRouter("verifsim")
 		AddStaticRoutes(rt)
+		as := "" // when set, every request URL gets &user=<as> (reset after each operation)
 		do := func(user, method, url, body string) (int, string) {
+			if as != "" {
+				if strings.Contains(url, "?") {
+					url += "&user=" + as
+				} else {
+					url += "?user=" + as
+				}
+			}
 			req := httptest.NewRequest(method, url, bytes.NewReader([]byte(body)))
 			req.SetBasicAuth(user, "pw-"+user)
 			req.Header.Set("Accept", "*/*")
@@ -292,6 +306,11 @@ func (c43Engine) Execute(t *testing.T, c *simrun.Case, keepLog bool) *simrun.Out
 					before := c43Dump(paths[d], tb)
 					variant := op.Arg(3) % 3
 					what := op.K
+					as = ""
+					if op.Arg(4) == 1 && op.K != "tx" && op.K != "droptable" && u != "admin" {
+						as = map[string]string{"u1": "u2", "u2": "u1"}[u]
+						out.Probe("requests_naming_another_user", 1)
+					}
 					var st int
 					var resp string
 					switch op.K {
@@ -348,6 +367,10 @@ func (c43Engine) Execute(t *testing.T, c *simrun.Case, keepLog bool) *simrun.Out
 						st, resp = do(u, "POST", "/dsns/"+d+"/tables/@transaction", "["+task+"]")
 						out.Probe("transaction_script_requests", 1)
 					}
+					if as != "" {
+						what += " with ?user=" + as
+					}
+					as = ""
 					after := c43Dump(paths[d], tb)
 					ok2xx := st >= 200 && st <= 299
 					hist = append(hist, fmt.Sprintf("%s by %s on %s.%s -> %d", what, u, d, tb, st))
